@@ -26,7 +26,7 @@ pub fn def() -> PropDef {
                chunk, unlimited}, maximal item size in {64 B, 1 KiB, 64 KiB}, content seed) drive an on-the-fly \
                generated stream (never materialised; DIMACS streams come in three shapes: clauses with occasional \
                comments, a header whose declared clause count is reached after 100 clauses followed only by comment \
-               and blank lines, one clause spread over the whole stream with comment lines in between, fixed-width 16-byte clause lines behind a 15-byte comment so that power-of-two reads always end inside a token) of N bytes with N >= 64 x bound through the parser while a \
+               and blank lines, one clause spread over the whole stream with comment lines in between, fixed-width 16-byte clause lines behind a 15-byte comment so that power-of-two reads always end inside a token; BTOR2 streams optionally end with a malformed justice line declaring 6*10^7 conditions) of N bytes with N >= 64 x bound through the parser while a \
                counting global allocator records the peak live heap. Oracle: peak <= 16 x chunk + 16 x max_item + \
                64 KiB, and the parse ends cleanly. Non-trivial: N >= 64 x bound and items of the maximal size \
                occurred (every 500th item is padded to it). evaluations = configurations run.",
@@ -244,6 +244,13 @@ impl Read for Stream {
                     self.idx += 1;
                     continue;
                 }
+                if self.idx == self.items && self.cfg.shape == 1 && self.cfg.parser == ParserId::Btor2 {
+                    // a final justice line that declares far more conditions than it has
+                    self.cur = b"5 justice 60000000 3\n".to_vec();
+                    self.pos = 0;
+                    self.idx += 1;
+                    continue;
+                }
                 if self.idx >= self.items {
                     break;
                 }
@@ -302,7 +309,16 @@ pub fn check(cfg: &Config, obs: &mut Obs) -> CheckResult {
         obs.class("n>=64xbound");
     }
     let p = cfg.parser.name();
-    if t.fin != Final::End {
+    let malformed_tail = cfg.parser == ParserId::Btor2 && cfg.shape == 1;
+    if malformed_tail && !matches!(t.fin, Final::Syntax { .. }) {
+        fail!(
+            format!("C10:{p}:stream-rejected"),
+            "{p}: the stream ends with a malformed justice line, expected a syntax error, got {}; config {:?}",
+            t.fin.short(),
+            cfg
+        );
+    }
+    if !malformed_tail && t.fin != Final::End {
         fail!(
             format!("C10:{p}:stream-rejected"),
             "{p}: the generated stream was not parsed to a clean end: {} after {} items ({} bytes delivered); config {:?}",
@@ -318,7 +334,7 @@ pub fn check(cfg: &Config, obs: &mut Obs) -> CheckResult {
         (true, 3) => items - 1, // the first line is a comment
         _ => items + if cfg.parser.is_aiger() { 1 } else { 0 },
     };
-    obs.class(format!("shape/{}", if cfg.parser.is_dimacs() { cfg.shape } else { 0 }));
+    obs.class(format!("shape/{}", cfg.shape));
     if t.item_count as u64 != expect_items {
         fail!(
             format!("C10:{p}:item-count"),
@@ -382,6 +398,7 @@ fn config_strategy(quick: bool) -> impl Strategy<Value = Config> {
                 seed,
                 n: 0,
                 shape: match (parser, shape) {
+                    (ParserId::Btor2, 1) => 1,
                     (ParserId::Cnf, s) => s,
                     (p, 3) if p.is_dimacs() => 0,
                     (p, s) if p.is_dimacs() => s,
